@@ -93,8 +93,7 @@ class MatlabDefCompiler:
         return name
 
     def generate_field(self, top_field: str, name: str, value: Any) -> str:
-        if name.startswith(f"{top_field}_"):
-            name = name[len(top_field) + 1 :]  # strip leading top_field from fieldname
+        # the name is kept as it is defined (RTMA.MT.<name> must match RTMA.MDF.<name>)
         name = self.sanitize_name(name)
         return f"{self.struct_name}.{top_field}.{name} = {value};\n"
 
